@@ -39,7 +39,8 @@ protected:
   }
   void ConvertSOS2FromPL(const ItemType& cc) {
     const int d = int(cc.get_vars().size()-1);
-    const int r = int(std::ceil(std::log2(d)));
+    // d<=1: no binary encoding needed (and log2(d) is not finite for d<=0)
+    const int r = d>1 ? int(std::ceil(std::log2(d))) : 0;
     auto lambda = cc.get_vars();
     lambda.push_back(-1);             // reserve for 1 extra var
     auto y = GetMC().AddVars_returnIds(r, 0.0, 1e100, var::INTEGER);
